@@ -227,8 +227,7 @@ func verifyFunc(prog *Program, key string) (res *FuncResult) {
 		if name == "" || name == "_" {
 			name = "anon"
 		}
-		c := Const("p."+sanitize(name), sortOf(v.Type()))
-		ex.declare(c.Op, nil, c.S)
+		c := ex.fresh("p."+sanitize(name), sortOf(v.Type()))
 		ex.rawFact(ex.typeFact(v.Type(), c))
 		if isPointer(v.Type()) || isInterface(v.Type()) {
 			ex.rawFact(Lt(c, ex.allocInit()))
@@ -315,6 +314,9 @@ func verifyFunc(prog *Program, key string) (res *FuncResult) {
 		}
 	}
 	res.Obls = ex.obls
+	for _, o := range res.Obls {
+		o.FuncKey = key
+	}
 	for _, n := range ex.declOrder {
 		if d := ex.decls[n]; d != "" {
 			res.Decls = append(res.Decls, d)
@@ -464,8 +466,7 @@ func verifyLemma(prog *Program, name string) (res *FuncResult) {
 	sc := &specCtx{ex: ex, st: ex.st, vars: map[string]Val{}, stateVars: map[string]stateVar{}, pkg: pkg.Types, where: pd.Line}
 	for i, n := range pd.ParamName {
 		t := ex.lookupType(pkg.Types, pd.ParamType[i])
-		c := Const("l."+sanitize(n), sortOf(t))
-		ex.declare(c.Op, nil, c.S)
+		c := ex.fresh("l."+sanitize(n), sortOf(t))
 		ex.rawFact(ex.typeFact(t, c))
 		sc.vars[n] = Val{c, t}
 	}
